@@ -45,7 +45,7 @@ func runC13(p *Prog, r *Report, tier string) {
 		r.Undecided("R-LOCK.guarded", "anchor: guarded accesses of AggregationProcess", "pkg/intermediate/aggregate.go", "fewer than 10 guarded accesses found: the guarded-field table no longer matches the code")
 	}
 	checkSingleSection(p, r, "R-LOCK.whole-op", aggMutex, "pkg/intermediate")
-	checkNoEscape(p, r, gs, "R-LOCK.escape", "pkg/intermediate.", nil)
+	checkNoEscape(p, r, gs, "R-LOCK.escape", "pkg/intermediate", nil)
 
 	// workers: the job handed to every worker is a method of AggregationProcess (so it is covered by the rules above)
 	start := p.Fn("(*pkg/intermediate.AggregationProcess).Start")
